@@ -83,22 +83,27 @@ func NewBuffer[K comparable, V any]() *Buffer[K, V] {
 //
 // item may be lost due to contention.
 func (b *Buffer[K, V]) Add(n ReadBufItem[K, V]) *PolicyBuffers[K, V] {
+	verifBufferYield(0)
 	head := b.head.Load()
+	verifBufferYield(1)
 	tail := b.tail.Load()
 	size := tail - head
 	if size >= capacity {
 		// full buffer
 		return nil
 	}
+	verifBufferYield(2)
 	if b.tail.CompareAndSwap(tail, tail+1) {
 		// success
 		index := int(tail & mask)
+		verifBufferYield(3)
 		atomic.StorePointer(&b.buffer[index], unsafe.Pointer(&ReadBufItem[K, V]{
 			entry: n.entry,
 			hash:  n.hash,
 		}))
 		if size == capacity-1 {
 			// try return new buffer
+			verifBufferYield(4)
 			if !atomic.CompareAndSwapPointer(&b.returned, b.policyBuffers, nil) {
 				// somebody already get buffer
 				return nil
@@ -107,6 +112,7 @@ func (b *Buffer[K, V]) Add(n ReadBufItem[K, V]) *PolicyBuffers[K, V] {
 			pb := (*PolicyBuffers[K, V])(b.policyBuffers)
 			for i := 0; i < capacity; i++ {
 				index := int(head & mask)
+				verifBufferYield(5)
 				v := atomic.LoadPointer(&b.buffer[index])
 				if v != nil {
 					// published
@@ -117,6 +123,7 @@ func (b *Buffer[K, V]) Add(n ReadBufItem[K, V]) *PolicyBuffers[K, V] {
 				head++
 			}
 
+			verifBufferYield(6)
 			b.head.Store(head)
 			return pb
 		}
@@ -151,6 +158,7 @@ func (b *Buffer[K, V]) Free() {
 		pb.Returned[i].hash = 0
 	}
 	pb.Returned = pb.Returned[:0]
+	verifBufferYield(7)
 	atomic.StorePointer(&b.returned, b.policyBuffers)
 }
 
